@@ -216,6 +216,34 @@ def ties_at_non_dyadic_strike(ctx: Ctx) -> None:
                               {"observed": got.tolist(), "dtype": str(got.dtype), "paths": paths.tolist()})
 
 
+def one_ulp_from_the_strike(ctx: Ctx) -> None:
+    """"Reaches the strike" is exact: a terminal price (European binary) or a path extreme (American binary) ONE unit in the last
+    place short of the strike does not pay, one on the strike or beyond does - calls and puts, float32 and float64, strikes 1.0
+    and 1.5 (representable in both, so that the comparison is not a matter of how the strike is rounded)."""
+    import pfhedge.nn.functional as F
+    for dtype in (torch.float32, torch.float64):
+        for K in (1.0, 1.5):
+            k = torch.tensor(K, dtype=dtype)
+            below = [torch.nextafter(k, torch.tensor(0.0, dtype=dtype)).item()]
+            above = [torch.nextafter(k, torch.tensor(9.0, dtype=dtype)).item()]
+            for _ in range(3):                                             # 1 .. 4 units in the last place away
+                below.append(torch.nextafter(torch.tensor(below[-1], dtype=dtype), torch.tensor(0.0, dtype=dtype)).item())
+                above.append(torch.nextafter(torch.tensor(above[-1], dtype=dtype), torch.tensor(9.0, dtype=dtype)).item())
+            for call in (True, False):
+                short, beyond = (below, above) if call else (above, below)
+                base = 0.75 * K if call else 1.25 * K
+                for j, (x_short, x_beyond) in enumerate(zip(short, beyond)):
+                    paths = torch.tensor([[base, base, x_short], [base, base, K], [base, base, x_beyond], [base, x_short, base], [base, K, base], [base, x_beyond, base]], dtype=dtype)
+                    want_eu = [0.0, 1.0, 1.0, 0.0, 0.0, 0.0]
+                    want_am = [0.0, 1.0, 1.0, 0.0, 1.0, 1.0]
+                    for name, fn, want in (("european_binary", F.european_binary_payoff, want_eu), ("american_binary", F.american_binary_payoff, want_am)):
+                        got = fn(paths.clone(), call=call, strike=K)
+                        ctx.count(("ulp", name, str(dtype), K, call, j), n=6)
+                        if got.tolist() != want:
+                            ctx.violation(f"payoff:{name}:ulp-from-strike", f"{name} payoff ({'call' if call else 'put'}, {dtype}) on prices {j + 1} unit(s) in the last place from the strike {K}: "
+                                          f"expected {want} (short of the strike / on it / beyond it, at maturity and before)", {"observed": got.tolist(), "paths": paths.tolist()})
+
+
 def variance_swap_units(ctx: Ctx) -> None:
     """The variance swap pays the ANNUALISED mean squared LOG-RETURN minus the strike: (i) log-returns do not depend on the unit
     the price is quoted in - the same lattice paths scaled by 2^-60 (float64; below machine epsilon) or 2^-30 (float32) and by
@@ -396,6 +424,7 @@ def check(ctx: Ctx) -> None:
         recs += res.records
     replay(ctx, recs)
     ties_at_non_dyadic_strike(ctx)
+    one_ulp_from_the_strike(ctx)
     variance_swap_units(ctx)
     registry_replay(ctx)
     # forward-start index over Grid.tla's (dt, k, fraction) menu: start = (k + f) dt  ->  index floor(start/dt) = k
